@@ -772,6 +772,14 @@ func c03Transition(c *Ctx) {
 					cd = e
 				}
 			}
+			if cd == nil && p.State.Facts.Truth(ts, ts.Cmp("==", exec, ts.Nil(nil))) == triT {
+				// no execution (a manual Open): ComputeDelay(nil) is -1 by its own summary (C13/C18 delay rules), so not
+				// calling it at all is the same; the configured delay must be used
+				if mkArgs[2] != cfgDelay {
+					bad("with no execution to compute a delay from, the configured delay must be used")
+				}
+				goto events
+			}
 			if cd == nil || cd.Args[0] != exec {
 				bad("the open delay must be computed from the delay function for the failing execution")
 				continue
@@ -790,6 +798,7 @@ func c03Transition(c *Ctx) {
 				bad("the open delay does not depend on whether a delay was computed")
 			}
 		}
+	events:
 		// events
 		for _, lc := range lcalls {
 			if lc.Idx < stores[0].Idx {
